@@ -59,6 +59,289 @@ func genTasks() {
 		}
 		fmt.Fprintf(&sb, "def %s : Nat := %s\n", n, want[n])
 	}
+	sb.WriteString(genFetchSection(fset, f))
 	sb.WriteString("\nend PB.Gen.Tasks\n")
 	write("Tasks.lean", sb.String())
+}
+
+// ---- fetch section of taskScheduleHandler ---------------------------------------------------------
+//
+// The statements the schedule handler executes on the first entry of the schedule (after
+// `t := e.Value.(*Task)`) are read as a decision tree over the two conditions the code tests,
+//   notYet   = now.Before(t.executeAt)   (with now := time.Now() assigned before on the same path)
+//   overtime = t.overtime
+// with three kinds of leaves: the handler goes back to waiting without touching the task (notDue), it
+// calls t.runWithLocking() (run), it calls t.StartASAP() (asap). The tree is emitted as a Lean function, the
+// value assigned to t.overtime on the way to a run / asap leaf as two Bool constants. Anything else in that
+// section (another condition, another call, an assignment to another field, a return) stops the extraction.
+
+type fetchLeaf struct {
+	nowSet   bool   // now := time.Now() seen on this path
+	unlocked bool   // scheduleLock.Unlock() seen on this path
+	setOT    string // "", "true", "false": value assigned to t.overtime on this path
+	call     string // "", "run", "asap"
+}
+
+type fetchTree struct {
+	cond      string // "notYet" | "overtime" (inner node), "" (leaf)
+	neg       bool
+	yes, no   *fetchTree
+	leaf      fetchLeaf
+	leafIsSet bool
+}
+
+func genFetchSection(fset *token.FileSet, f *ast.File) string {
+	fd := findFunc(f, "taskScheduleHandler", "")
+	if fd == nil {
+		die("tasks: func taskScheduleHandler not found")
+	}
+	// the select clause `case <-waitUntilNextScheduledTask():`
+	var clause *ast.CommClause
+	ast.Inspect(fd.Body, func(n ast.Node) bool {
+		cc, ok := n.(*ast.CommClause)
+		if !ok || cc.Comm == nil {
+			return true
+		}
+		if es, ok := cc.Comm.(*ast.ExprStmt); ok {
+			if ue, ok := es.X.(*ast.UnaryExpr); ok && ue.Op == token.ARROW {
+				if ce, ok := ue.X.(*ast.CallExpr); ok {
+					if id, ok := ce.Fun.(*ast.Ident); ok && id.Name == "waitUntilNextScheduledTask" {
+						if clause != nil {
+							die("tasks: taskScheduleHandler has two clauses waiting for the next scheduled task")
+						}
+						clause = cc
+					}
+				}
+			}
+		}
+		return true
+	})
+	if clause == nil {
+		die("tasks: taskScheduleHandler: clause `case <-waitUntilNextScheduledTask():` not found")
+	}
+	// prologue: lock, e := taskSchedule.Front(), if e == nil {...; continue}, t := e.Value.(*Task)
+	start, sawFront, sawLock := -1, false, false
+	for i, st := range clause.Body {
+		src := exprStmtString(fset, st)
+		switch {
+		case isIgnorableCall(st):
+		case src == "scheduleLock.Lock()":
+			sawLock = true
+		case src == "e := taskSchedule.Front()":
+			sawFront = true
+		case strings.HasPrefix(src, "if e == nil {"):
+			ifs := st.(*ast.IfStmt)
+			if ifs.Else != nil || len(ifs.Body.List) == 0 {
+				die("tasks: fetch section: unexpected shape of the empty-schedule check: %s", src)
+			}
+			if br, ok := ifs.Body.List[len(ifs.Body.List)-1].(*ast.BranchStmt); !ok || br.Tok != token.CONTINUE {
+				die("tasks: fetch section: the empty-schedule check does not end with continue")
+			}
+		case src == "t := e.Value.(*Task)":
+			start = i + 1
+		default:
+			die("tasks: fetch section: unknown statement before the task is taken from the entry: %s", src)
+		}
+		if start >= 0 {
+			break
+		}
+	}
+	if start < 0 || !sawFront || !sawLock {
+		die("tasks: fetch section: prologue (scheduleLock.Lock / e := taskSchedule.Front() / t := e.Value.(*Task)) not recognised")
+	}
+	tree := fetchInterp(fset, clause.Body[start:], fetchLeaf{})
+	// leaves: consistency of the overtime writes per kind
+	writes := map[string]string{}
+	var walk func(t *fetchTree)
+	kinds := map[string]int{}
+	walk = func(t *fetchTree) {
+		if t.cond != "" {
+			walk(t.yes)
+			walk(t.no)
+			return
+		}
+		l := t.leaf
+		if !l.unlocked {
+			die("tasks: fetch section: a path leaves the section without scheduleLock.Unlock()")
+		}
+		k := l.call
+		if k == "" {
+			k = "notDue"
+			if l.setOT != "" {
+				die("tasks: fetch section: a path that does not act on the task writes t.overtime")
+			}
+		} else if l.setOT == "" {
+			die("tasks: fetch section: the %s path does not write t.overtime", k)
+		}
+		if w, ok := writes[k]; ok && w != l.setOT {
+			die("tasks: fetch section: two %s paths write different values to t.overtime", k)
+		}
+		writes[k] = l.setOT
+		kinds[k]++
+	}
+	walk(tree)
+	for _, k := range []string{"notDue", "run", "asap"} {
+		if kinds[k] == 0 {
+			die("tasks: fetch section: no %s path", k)
+		}
+	}
+	var sb strings.Builder
+	sb.WriteString("\n/-! Fetch section of `taskScheduleHandler` (the statements executed on the first entry of the schedule),\n")
+	sb.WriteString("    read from the source as a decision tree: `notYet` = `now.Before(t.executeAt)`, `overtime` = `t.overtime`;\n")
+	sb.WriteString("    outcomes: back to waiting (notDue), `t.runWithLocking()` (run), `t.StartASAP()` (asap). -/\n\n")
+	sb.WriteString("inductive FetchOut where\n  | notDue | run | asap\nderiving DecidableEq, Repr\n\n")
+	sb.WriteString("def fetchOut (notYet overtime : Bool) : FetchOut :=\n  " + fetchEmit(tree) + "\n\n")
+	sb.WriteString("/-- Value assigned to `t.overtime` on the way to `t.runWithLocking()`. -/\n")
+	sb.WriteString("def overtimeOnRun : Bool := " + writes["run"] + "\n")
+	sb.WriteString("/-- Value assigned to `t.overtime` on the way to `t.StartASAP()`. -/\n")
+	sb.WriteString("def overtimeOnAsap : Bool := " + writes["asap"] + "\n")
+	return sb.String()
+}
+
+func exprStmtString(fset *token.FileSet, st ast.Stmt) string {
+	var sb strings.Builder
+	if err := printerFprintNode(&sb, fset, st); err != nil {
+		die("print stmt: %v", err)
+	}
+	// drop trailing comments / normalise whitespace of one-liners
+	s := sb.String()
+	if i := strings.Index(s, "\n"); i >= 0 && !strings.HasPrefix(s, "if ") {
+		s = s[:i]
+	}
+	if i := strings.Index(s, " //"); i >= 0 && !strings.HasPrefix(s, "if ") {
+		s = s[:i]
+	}
+	return strings.TrimSpace(s)
+}
+
+// isIgnorableCall: hook lines (build tag verif) — they do not touch scheduler state.
+func isIgnorableCall(st ast.Stmt) bool {
+	es, ok := st.(*ast.ExprStmt)
+	if !ok {
+		return false
+	}
+	ce, ok := es.X.(*ast.CallExpr)
+	if !ok {
+		return false
+	}
+	id, ok := ce.Fun.(*ast.Ident)
+	return ok && (id.Name == "verifEvent" || id.Name == "verifTaskEnd" || id.Name == "verifTaskEndAt" || id.Name == "verifYield")
+}
+
+func fetchInterp(fset *token.FileSet, stmts []ast.Stmt, acc fetchLeaf) *fetchTree {
+	for i, st := range stmts {
+		if acc.call != "" {
+			// nothing but the end of the path may follow the call
+			if br, ok := st.(*ast.BranchStmt); ok && br.Tok == token.CONTINUE {
+				return &fetchTree{leaf: acc, leafIsSet: true}
+			}
+			die("tasks: fetch section: statement after the %s call: %s", acc.call, exprStmtString(fset, st))
+		}
+		if isIgnorableCall(st) {
+			continue
+		}
+		switch x := st.(type) {
+		case *ast.BranchStmt:
+			if x.Tok != token.CONTINUE || x.Label != nil {
+				die("tasks: fetch section: unexpected branch statement %s", exprStmtString(fset, st))
+			}
+			return &fetchTree{leaf: acc, leafIsSet: true}
+		case *ast.ExprStmt:
+			switch exprStmtString(fset, st) {
+			case "scheduleLock.Unlock()":
+				acc.unlocked = true
+			case "t.runWithLocking()":
+				if !acc.unlocked {
+					die("tasks: fetch section: t.runWithLocking() is called with scheduleLock held")
+				}
+				acc.call = "run"
+			case "t.StartASAP()":
+				if !acc.unlocked {
+					die("tasks: fetch section: t.StartASAP() is called with scheduleLock held")
+				}
+				acc.call = "asap"
+			default:
+				die("tasks: fetch section: unknown call %s", exprStmtString(fset, st))
+			}
+		case *ast.AssignStmt:
+			switch exprStmtString(fset, st) {
+			case "now := time.Now()":
+				acc.nowSet = true
+			case "t.overtime = true":
+				if acc.unlocked {
+					die("tasks: fetch section: t.overtime is written after scheduleLock.Unlock()")
+				}
+				acc.setOT = "true"
+			case "t.overtime = false":
+				if acc.unlocked {
+					die("tasks: fetch section: t.overtime is written after scheduleLock.Unlock()")
+				}
+				acc.setOT = "false"
+			default:
+				die("tasks: fetch section: unknown assignment %s", exprStmtString(fset, st))
+			}
+		case *ast.IfStmt:
+			if x.Init != nil {
+				die("tasks: fetch section: if with init statement")
+			}
+			if acc.unlocked {
+				die("tasks: fetch section: a condition is tested after scheduleLock.Unlock()")
+			}
+			cond, neg := fetchCond(fset, x.Cond, acc)
+			rest := stmts[i+1:]
+			yes := append(append([]ast.Stmt{}, x.Body.List...), rest...)
+			var no []ast.Stmt
+			switch e := x.Else.(type) {
+			case nil:
+				no = rest
+			case *ast.BlockStmt:
+				no = append(append([]ast.Stmt{}, e.List...), rest...)
+			default:
+				die("tasks: fetch section: else-if chain: %s", exprStmtString(fset, st))
+			}
+			return &fetchTree{cond: cond, neg: neg, yes: fetchInterp(fset, yes, acc), no: fetchInterp(fset, no, acc)}
+		default:
+			die("tasks: fetch section: unknown statement %s", exprStmtString(fset, st))
+		}
+	}
+	// end of the clause body: the handler loop iterates
+	return &fetchTree{leaf: acc, leafIsSet: true}
+}
+
+func fetchCond(fset *token.FileSet, e ast.Expr, acc fetchLeaf) (string, bool) {
+	if p, ok := e.(*ast.ParenExpr); ok {
+		return fetchCond(fset, p.X, acc)
+	}
+	if u, ok := e.(*ast.UnaryExpr); ok && u.Op == token.NOT {
+		c, n := fetchCond(fset, u.X, acc)
+		return c, !n
+	}
+	switch exprString(fset, e) {
+	case "now.Before(t.executeAt)":
+		if !acc.nowSet {
+			die("tasks: fetch section: `now` is compared before `now := time.Now()`")
+		}
+		return "notYet", false
+	case "t.overtime":
+		return "overtime", false
+	}
+	die("tasks: fetch section: unknown condition %s", exprString(fset, e))
+	return "", false
+}
+
+func fetchEmit(t *fetchTree) string {
+	if t.cond == "" {
+		switch t.leaf.call {
+		case "run":
+			return ".run"
+		case "asap":
+			return ".asap"
+		}
+		return ".notDue"
+	}
+	y, n := fetchEmit(t.yes), fetchEmit(t.no)
+	if t.neg {
+		y, n = n, y
+	}
+	return "(if " + t.cond + " then " + y + " else " + n + ")"
 }
